@@ -5,6 +5,6 @@ for d in seeded/C*/; do
   id=$(basename $d)
   prop=$(python3 -c "import json;m=json.load(open('$d/meta.json'));print(m.get('check', m['property']))")
   case $id in C01-4|C07-4) prop=C18;; esac
-  out=$(timeout 1200 tools/mutant.sh /verif/$d/patch.diff $prop 2>&1 | tail -1 | cut -c1-160)
+  out=$(timeout 1200 tools/mutant.sh /verif/$d/patch.diff $prop 2>&1 | grep -E "exit=" | head -1 | cut -c1-200)
   case "$out" in *"exit=1"*) echo "CAUGHT $id by $prop :: $out";; *) echo "MISSED $id by $prop :: $out";; esac
 done
